@@ -130,10 +130,7 @@ def examine(case, draw=None, stats=None):
         if s1 != base:
             out.append(V('log-replay', ['log-replay-differs'] + diff(base, s1)[:2], case,
                          {k: [base[k], s1[k]] for k in diff(base, s1)}))
-    if case.get('log_only'):
-        # a history that left the territory the rules (and so the card import and the interleaving clause) speak about -
-        # a pass in a jump-off, the bar moved before everybody jumped: the log replay clause is about EVERY competition
-        return out
+    beyond = bool(case.get('log_only'))
     # (2) card export / import
     m = safe_call(c.to_matrix, ['bib'])
     if m[0] == 'exc':
@@ -141,12 +138,22 @@ def examine(case, draw=None, stats=None):
     elif c.jumpers:
         r2 = safe_call(HighJumpCompetition.from_matrix, m[1])
         if r2[0] == 'exc':
-            out.append(V('card-roundtrip', ['from_matrix-raises', r2[1]], case, {'matrix': m[1], 'error': r2[:3]}))
+            if not beyond:
+                out.append(V('card-roundtrip', ['from_matrix-raises', r2[1]], case, {'matrix': m[1], 'error': r2[:3]}))
         else:
             a, b = no_pass(base), no_pass(snap(r2[1]))
+            if beyond:
+                # a history that left the territory the rules speak about (a pass in a jump-off, the bar moved before
+                # everybody jumped, nobody cleared anything): who is placed where is not defined there and the import
+                # (which replays the card round-robin) may rank differently, but the cards, heights, bests and the STATE
+                # of the competition are still those of the card
+                a.pop('places', None)
+                b.pop('places', None)
             if a != b:
                 out.append(V('card-roundtrip', ['card-roundtrip-differs'] + diff(a, b)[:2], case,
                              {'matrix': m[1], 'diff': {k: [a[k], b[k]] for k in diff(a, b)}}))
+    if beyond:
+        return out
     # (3) interleavings per height
     adds, groups = groups_of(c)
     if draw is None:
